@@ -64,7 +64,11 @@ class C11(Check):
     driver = "drv_c11"
     theorems = ["Pox.C11.reachable_inv", "Pox.C11.init_inv", "Pox.C11.no_stuck", "Pox.C11.no_echo_no_dup", "Pox.C11.unknown_floods",
                 "Pox.C11.buffers_drain", "Pox.C11.buffers_drain_history", "Pox.C11.known_dst", "Pox.C11.known_dst_fresh_partial",
-                "Pox.C11.stale_only_by_cached_hit", "Pox.C11.miss_refreshes", "Pox.C11.filtered", "Pox.C11.ideal_when_current", "Pox.C11.propagate_inv",
+                "Pox.C11.stale_only_by_cached_hit", "Pox.C11.miss_refreshes", "Pox.C11.filtered", "Pox.C11.ideal_when_current", "Pox.C11.every_hop", "Pox.C11.net_reachable_inv",
+                "Pox.C11.hop_provenance", "Pox.C11.net_no_echo_no_dup", "Pox.C11.net_unknown_floods", "Pox.C11.net_known_dst",
+                "Pox.C11.net_known_dst_fresh_partial", "Pox.C11.net_filtered", "Pox.C11.net_buffers_drain", "Pox.C11.net_cache_bounded",
+                "Pox.C11.netInit_inv", "Pox.C11.arrive_current", "Pox.C11.current_reachable", "Pox.C11.known_dst_fresh_repaired",
+                "Pox.C11.ideal_repaired", "Pox.C11.net_known_dst_fresh_repaired", "Pox.L2.sweep_bounds",
                 "Pox.C11.known_dst_fresh_defect"]
     anchors = [("pox/forwarding/l2_learning.py", 94, 174), ("pox/openflow/libopenflow_01.py", 2314, 2354),
                ("pox/openflow/libopenflow_01.py", 3585, 3608)]
@@ -111,9 +115,28 @@ class C11(Check):
         self.SoftwareSwitch, self.OFConnection, self.DpPacketOut, self.IOWorker = SoftwareSwitch, OFConnection, DpPacketOut, IOWorker
         self.pk = (ethernet, ipv4, udp, arp, EthAddr, IPAddr)
         self.pins = []
+        self.relearn, self.dropinport = self.read_repair_flags()
         core.openflow.addListenerByName("PacketIn", lambda e: self.pins.append(e.dpid))
         self._dpid = 0
         self._fcache = {}
+
+    @staticmethod
+    def read_repair_flags():
+        """Which variant of l2_learning is in the tree (read from the source with `ast`, never imported here): does `_handle_PacketIn` send an
+        OFPFC_DELETE for a source that moved (repair C11-K1), and does its `drop` build the match with the ingress port?  The model takes both as
+        parameters; a wrong reading shows up as a correspondence disagreement."""
+        import ast, os
+        tree = ast.parse(open(os.path.join(common.REPO, "pox", "forwarding", "l2_learning.py")).read())
+        fn = next((n for n in ast.walk(tree) if isinstance(n, ast.FunctionDef) and n.name == "_handle_PacketIn"), None)
+        if fn is None: return False, False
+        relearn = any(isinstance(n, ast.Attribute) and n.attr == "OFPFC_DELETE" for n in ast.walk(fn))
+        drop = next((n for n in ast.walk(fn) if isinstance(n, ast.FunctionDef) and n.name == "drop"), None)
+        dip = drop is not None and any(isinstance(c, ast.Call) and getattr(c.func, "attr", None) == "from_packet" and
+                                       (len(c.args) >= 2 or any(k.arg == "in_port" for k in c.keywords)) for c in ast.walk(drop))
+        return relearn, dip
+
+    def extra_evidence(self):
+        return {"l2_learning_variant": {"relearn_on_move": self.relearn, "drop_entry_has_in_port": self.dropinport}}
 
     def frame(self, src, dst, kind, key, pay):
         """real frame bytes; `key` goes where ofp_match.from_packet looks (UDP source port / ARP target address), `pay` where it does not"""
@@ -303,16 +326,20 @@ class C11(Check):
         for h in hosts:
             ops.append(rx(loc[h], h, hosts[(hosts.index(h) + 1) % len(hosts)]))
         total = rng.choice([35000, 45000, 70000])
+        a0, b0 = hosts[0], hosts[1]                   # the long-lived conversation
         while t < total:
-            d = rng.choice([1000, 2000, 3000, 4000, 6000, 8000, 9000, 9875, rng.randrange(1, 80) * 125])
+            d = rng.choice([2000, 3000, 4000, 6000, 8000, 9000, 9875, rng.randrange(8, 80) * 125])
             t += d
             ops += [{"op": "adv", "ms": d}, {"op": "sweep", "sw": 0}]
-            if rng.random() < 0.12:
-                h = rng.choice(hosts); loc[h] = rng.randint(1, nports)
-                ops.append(rx(loc[h], h, rng.choice([BCAST] + hosts)))
+            r = rng.random()
+            if r < 0.72:
+                ops.append(rx(loc[a0], a0, b0))
+            elif r < 0.84:
+                h = rng.choice([b0, b0, rng.choice(hosts)]); loc[h] = rng.randint(1, nports)
+                ops.append(rx(loc[h], h, BCAST))
             else:
-                a = rng.choice(hosts[:2]); b = rng.choice([h for h in hosts if h != a])
-                ops.append(rx(loc[a], a, b, key=rng.choice([1, 1, 1, 2])))
+                a = rng.choice(hosts); b = rng.choice([h for h in hosts if h != a])
+                ops.append(rx(loc[a], a, b, key=rng.choice([1, 2])))
         return {"transparent": False, "switches": [{"ports": nports, "bufs": rng.randint(0, 2)}], "links": [], "ops": ops}
 
     def random_case(self, rng, maxlen=200):
@@ -369,7 +396,7 @@ class C11(Check):
                             "key": op["key"], "full": 1 if op["kind"] == "udp" else 0, "pay": op["pay"]})
             else:
                 ops.append(op)
-        return {"transparent": bool(case["transparent"]), "t0": T0_MS, "switches": case["switches"], "links": case.get("links", []), "ops": ops}
+        return {"transparent": bool(case["transparent"]), "relearn": self.relearn, "dropinport": self.dropinport, "t0": T0_MS, "switches": case["switches"], "links": case.get("links", []), "ops": ops}
 
     def model_obs(self, case, resp):
         return resp
